@@ -54,6 +54,9 @@ except ImportError:
         def matched_count(self):
             if self.upserted_id is not None:
                 return 0
+            if self.__raw_result.get('n') and self.__raw_result.get('updatedExisting') is False:
+                # an upsert whose document has a null _id: nothing was matched either
+                return 0
             return self.__raw_result.get('n', 0)
 
         @property
